@@ -1,6 +1,7 @@
 import Qryn.Proofs.Cursor
 import Qryn.Proofs.Assembly
 import Qryn.Proofs.PromSelect
+import Qryn.Proofs.ProfSelector
 /-! # C17 — Prometheus and Pyroscope label matchers select exactly the matching series
 
 Property theorems only.
@@ -470,5 +471,63 @@ example : WellFormed [⟨7, [([97], [49]), ([98], [50])], [50], 2⟩, ⟨9, [([9
   ⟨by decide, by decide⟩
 
 end Selection
+
+/-! ## Part 4 — the Pyroscope selector (`reader/prof/transpiler/planner_selector.go`)
+
+Model: `Qryn.Prof.plan` (= `getMatchers` + `Process`), `PQuery.eval` over rows of `profiles_series_gin`;
+pseudo-label table and operator table are `Gen.ProfSelect`. -/
+section ProfSelector
+open Qryn Qryn.Prof
+
+/-- **prof_selector_exact.** For every selector list with at most 63 key/value selectors, every index table
+    and fingerprint: no "unknown operator" error, and the fingerprint is selected exactly when
+    (i) it has an index row inside the date range on which **every pseudo-label selector holds**
+    (`__name__`/`__period_type__`/`__period_unit__` on the parts of `type_id`, `service_name` on its column,
+    `__sample_type__`/`__sample_unit__`/`__profile_type__` on *some* element of `sample_types_units`) and,
+    if there are key/value selectors, one of them holds on that row; and (ii) **for every key/value selector
+    it has such a row whose (key, val) satisfies it**. -/
+theorem prof_selector_exact (re : Bytes → Bytes → Bool) (table : String) (fromDate toDate : Bytes)
+    (sels : List Selector) (h63 : (sels.filter (fun s => !isGlobal s)).length ≤ 63)
+    (tbl : List PRow) (f : Nat) :
+    ∃ q, plan table fromDate toDate sels = some q ∧
+      (f ∈ q.eval re Gen.PromSelect.shiftWidth tbl ↔ Prof.Selected re fromDate toDate sels tbl f) :=
+  plan_correct re _ table fromDate toDate sels
+    (Nat.le_trans h63 (by decide : 63 ≤ Gen.PromSelect.shiftWidth)) h63 tbl f
+
+
+/-- **prof_pseudo_label_meaning.** What each pseudo-label selector means on an index row, spelled out:
+    `type_id` is `name:period_type:period_unit` (ctrl/qryn/sql/profiles.sql), `sample_types_units` the list of
+    (sample type, sample unit); `__profile_type__` is Pyroscope's `name:sample_type:sample_unit:period_type:period_unit`.
+    (Pins the field each case of the `switch selector.Name` applies its matcher to: `Gen.ProfSelect.pseudoLabels`.) -/
+theorem prof_pseudo_label_meaning (re : Bytes → Bytes → Bool) (op : Prof.Op) (v : Bytes) (r : PRow) :
+    (selHolds re ⟨[95, 95, 110, 97, 109, 101, 95, 95], op, v⟩ r = opHoldsP re op (typePart r 1) v) ∧
+    (selHolds re ⟨[95, 95, 112, 101, 114, 105, 111, 100, 95, 116, 121, 112, 101, 95, 95], op, v⟩ r = opHoldsP re op (typePart r 2) v) ∧
+    (selHolds re ⟨[95, 95, 112, 101, 114, 105, 111, 100, 95, 117, 110, 105, 116, 95, 95], op, v⟩ r = opHoldsP re op (typePart r 3) v) ∧
+    (selHolds re ⟨[95, 95, 115, 97, 109, 112, 108, 101, 95, 116, 121, 112, 101, 95, 95], op, v⟩ r = r.stu.any (fun x => opHoldsP re op x.1 v)) ∧
+    (selHolds re ⟨[95, 95, 115, 97, 109, 112, 108, 101, 95, 117, 110, 105, 116, 95, 95], op, v⟩ r = r.stu.any (fun x => opHoldsP re op x.2 v)) ∧
+    (selHolds re ⟨[95, 95, 112, 114, 111, 102, 105, 108, 101, 95, 116, 121, 112, 101, 95, 95], op, v⟩ r = r.stu.any (fun x => opHoldsP re op (typePart r 1 ++ [58] ++ x.1 ++ [58] ++ x.2 ++ [58] ++ typePart r 2 ++ [58] ++ typePart r 3) v)) ∧
+    (selHolds re ⟨[115, 101, 114, 118, 105, 99, 101, 95, 110, 97, 109, 101], op, v⟩ r = opHoldsP re op r.serviceName v) := by
+  refine ⟨?_, ?_, ?_, ?_, ?_, ?_, ?_⟩ <;>
+    simp [selHolds, pseudoOf, nameStr, Gen.ProfSelect.pseudoLabels, List.lookup, fieldSem]
+
+/-- any other name is a key/value selector: the row's key is the name and its value satisfies the operator -/
+theorem prof_key_value_meaning (re : Bytes → Bytes → Bool) (s : Selector) (h : isGlobal s = false) (r : PRow) :
+    selHolds re s r = (r.key == s.name && opHoldsP re s.op r.val s.val) := by
+  have : pseudoOf s.name = none := by
+    cases hp : pseudoOf s.name with
+    | none => rfl
+    | some p => simp [isGlobal, hp] at h
+  simp [selHolds, this]
+
+-- non-vacuity / a concrete run: {__name__="cpu", __sample_type__=~"s", job="a"}
+-- type_id = "cpu:p:u" = [99,112,117,58,112,58,117]
+example : ((plan "t" [49] [51] [⟨[95, 95, 110, 97, 109, 101, 95, 95], .eq, [99, 112, 117]⟩,
+      ⟨[106, 111, 98], .eq, [97]⟩]).map (fun q =>
+        q.eval (fun _ _ => true) 64
+          [⟨[50], [106, 111, 98], [97], [99, 112, 117, 58, 112, 58, 117], [], [], 5⟩,
+           ⟨[50], [106, 111, 98], [98], [99, 112, 117, 58, 112, 58, 117], [], [], 6⟩,
+           ⟨[50], [106, 111, 98], [97], [120, 58, 112, 58, 117], [], [], 7⟩])) = some [5] := by decide
+
+end ProfSelector
 
 end Qryn.C17
